@@ -31,6 +31,9 @@ type Case struct {
 	// encoding), when Chunked[seq mod len] is set; all others carry Content-Length. ChunkSplit places the cut.
 	Chunked    []bool `json:"chunked,omitempty"`
 	ChunkSplit int    `json:"chunk_split,omitempty"`
+	// AnswLog (option of the gun): the answer log is on (filter all), so the gun reads and keeps the body of every answer,
+	// also of steps without postprocessors.
+	AnswLog bool `json:"answlog,omitempty"`
 }
 
 // chunkAt tells how the seq-th answer is transferred: 0 = with Content-Length, otherwise chunked and cut after
@@ -82,6 +85,21 @@ func (g *pgen) sizeAssert(r *si.Request) *si.SizeAssert {
 	if g.concurrent {
 		// the answers of the concurrent test are a function of the request: only assertions that hold
 		ops, holds = ops[:2], true
+	}
+	if r.Method == "HEAD" {
+		// no body is sent in answer to HEAD: its size is 0 whatever Content-Length announces. `<` 40.. holds, `>` 40..
+		// fails, `=` 0 holds (placeholder: the size of a planned answer), `=` the announced size or so fails.
+		a := &si.SizeAssert{Op: "<", Val: rapid.SampledFrom([]int{40, 500, 100000}).Draw(t, "sizeHeadVal")}
+		switch {
+		case g.concurrent:
+		case holds && rapid.Bool().Draw(t, "sizeHeadEq"):
+			a.Op, a.Val = "=", eqPlaceholder
+		case !holds && rapid.Bool().Draw(t, "sizeHeadEq"):
+			a.Op, a.Val = "=", rapid.SampledFrom([]int{100, 120, 150, 5000}).Draw(t, "sizeHeadNever")
+		case !holds:
+			a.Op, a.Val = ">", rapid.SampledFrom([]int{40, 500}).Draw(t, "sizeHeadAbove")
+		}
+		return a
 	}
 	a := &si.SizeAssert{Op: rapid.SampledFrom(ops).Draw(t, "sizeOp")}
 	above := high + rapid.SampledFrom([]int{40, 500, 100000}).Draw(t, "sizeAbove")
@@ -193,6 +211,10 @@ type pgen struct {
 	before     map[string]map[string]bool // request -> requests surely executed before it
 	nextOwner  map[string]string          // array source -> scenario that may use [next] on it
 	preSafe    map[string]map[string]bool // request -> pre var -> safe
+	// sharedNext: a request that several scenarios list -> the source (of its own) its preprocessor indexes with [next]
+	sharedNext map[string]string
+	// isolated (concurrent programs): requests whose templates refer to no other step and that no other step refers to
+	isolated map[string]bool
 }
 
 var scenarioNames = []string{"alpha", "beta_x", "g3"}
@@ -414,6 +436,13 @@ func (g *pgen) posts() {
 		if chance(t, 30, "html") {
 			r.RespKind = "html"
 		}
+		// HEAD: the target answers with status line and headers (Content-Length of the body a GET would get, or none)
+		// and no body. What var/jsonpath, var/xpath and body patterns make of a missing body the documentation does not
+		// say: a HEAD step looks at the status and the headers (var/header, assert/response) and at the size of the body (0).
+		head := chance(t, 13, "methodHead")
+		if head {
+			r.Method = "HEAD"
+		}
 		if chance(t, 25, "respPad") {
 			r.RespPad = rapid.SampledFrom([]int{300, 1500, 2500, 5000}).Draw(t, "respPadBytes")
 		}
@@ -424,7 +453,7 @@ func (g *pgen) posts() {
 			if r.RespKind == "html" {
 				kind = scengen.PostXpath
 			}
-			if chance(t, 35, "headerPost") {
+			if chance(t, 35, "headerPost") || head {
 				kind = scengen.PostHeader
 			}
 			if usedKinds[kind] {
@@ -462,10 +491,12 @@ func (g *pgen) posts() {
 			if chance(t, 70, "assertStatus") {
 				a.Status = 200
 			}
-			if chance(t, 50, "assertBody") {
+			if chance(t, 50, "assertBody") && !head {
 				a.BodyHas = []string{si.Marker}
 			}
-			if chance(t, 45, "assertSize") {
+			// (52 % of the assertions of the other methods: the share of judged size assertions with a body stays what it
+			// was before HEAD steps, which have no body to measure, were generated)
+			if pct := map[bool]int{true: 45, false: 52}[head]; chance(t, pct, "assertSize") {
 				a.Size = g.sizeAssert(r)
 			}
 			if chance(t, 40, "assertHeader") || (a.Status == 0 && len(a.BodyHas) == 0 && a.Size == nil) {
@@ -475,7 +506,7 @@ func (g *pgen) posts() {
 			r.Posts = append(r.Posts[:pos], append([]si.Post{a}, r.Posts[pos:]...)...)
 		}
 		// a step nobody looks at the answer of: it must still fail when the exchange itself fails
-		if chance(t, 12, "noPostprocessors") {
+		if chance(t, 12, "noPostprocessors") || (head && chance(t, 12, "headNoPostprocessors")) {
 			r.Posts = nil
 		}
 	}
@@ -527,10 +558,54 @@ func sortedKeys(m map[string]bool) []string {
 	return out
 }
 
+// planSharedNext: in part of the programs with a request that several scenarios list, one such request indexes a source
+// with [next] in its preprocessor - the common first action of different kinds of users that takes "the next user". The
+// rows it takes must be consecutive over all its executions, whichever scenario (and instance) runs it. The source is one
+// of its own: what two different requests share that index the same source with [next] the documentation does not settle.
+func (g *pgen) planSharedNext() {
+	t := g.t
+	g.sharedNext, g.isolated = map[string]string{}, map[string]bool{}
+	var shared []string
+	for _, r := range g.p.Requests {
+		if len(g.usedIn[r.Name]) >= 2 {
+			shared = append(shared, r.Name)
+		}
+	}
+	if len(shared) == 0 || !chance(t, 60, "sharedNext") {
+		return
+	}
+	name := shared[uni(t, 0, len(shared)-1, "sharedNextReq")]
+	s := si.Source{Name: fmt.Sprintf("s%d", len(g.p.Sources)), Kind: rapid.SampledFrom([]string{si.SrcCSV, si.SrcJSON}).Draw(t, "sharedSrcKind")}
+	nf := uni(t, 1, 2, "sharedSrcFields")
+	for k := 0; k < nf; k++ {
+		s.Fields = append(s.Fields, fmt.Sprintf("f%d", k))
+	}
+	nr := uni(t, 2, 5, "sharedSrcRows")
+	for r := 0; r < nr; r++ {
+		var row []string
+		for k := 0; k < nf; k++ {
+			row = append(row, safeVal(t, "sharedCell"))
+		}
+		s.Rows = append(s.Rows, row)
+	}
+	if s.Kind == si.SrcCSV {
+		s.HeaderLine = rapid.Bool().Draw(t, "sharedHeaderLine")
+	} else if rapid.Bool().Draw(t, "sharedWrap") {
+		s.Wrap = "data"
+	}
+	g.p.Sources = append(g.p.Sources, s)
+	g.sharedNext[name] = s.Name
+	g.nextOwner[s.Name] = "\x00" + name
+	// with several instances the invocations interleave: which invocation gets which row is not determined, so nothing
+	// else of an invocation may show in this request or depend on it
+	g.isolated[name] = g.concurrent
+}
+
 func (g *pgen) pres() {
 	t := g.t
 	g.nextOwner = map[string]string{}
 	g.preSafe = map[string]map[string]bool{}
+	g.planSharedNext()
 	arrays := g.arraySources()
 	for i := range g.p.Requests {
 		r := &g.p.Requests[i]
@@ -538,6 +613,12 @@ func (g *pgen) pres() {
 		sole := g.soleScenario(r.Name)
 		n := rapid.SampledFrom([]int{0, 1, 1, 2}).Draw(t, "nPre")
 		forceNext := g.concurrent && g.isEntry(r.Name)
+		// owner of the [next] counters this request may use: its only scenario, or - a request listed by several
+		// scenarios that was given a source of its own - the request
+		owner := sole
+		if g.sharedNext[r.Name] != "" {
+			owner, forceNext = "\x00"+r.Name, true
+		}
 		if forceNext && n == 0 {
 			n = 1
 		}
@@ -565,11 +646,11 @@ func (g *pgen) pres() {
 						cands = append(cands, s)
 						continue
 					}
-					if sole == "" || nextUsed[s.Name] {
+					if owner == "" || nextUsed[s.Name] {
 						continue
 					}
-					if o, ok := g.nextOwner[s.Name]; ok && o != sole {
-						continue
+					if o, ok := g.nextOwner[s.Name]; (ok && o != owner) || (owner != sole && !ok) {
+						continue // owned by another scenario or request; a shared request takes rows of its own source only
 					}
 					cands = append(cands, s)
 				}
@@ -583,7 +664,7 @@ func (g *pgen) pres() {
 				case "next":
 					m.Index = "next"
 					hasNext = true
-					g.nextOwner[s.Name] = sole
+					g.nextOwner[s.Name] = owner
 					nextUsed[s.Name] = true
 				case "last":
 					m.Index = "last"
@@ -608,7 +689,15 @@ func (g *pgen) pres() {
 			case "post", "pre":
 				// a value set by an earlier step; rarely (not for entry requests, which must always reach
 				// the target) by a step that did not run before: the preprocessor then fails
-				pool := sortedKeys(g.before[r.Name])
+				if g.isolated[r.Name] {
+					continue
+				}
+				var pool []string
+				for _, q := range sortedKeys(g.before[r.Name]) {
+					if !g.isolated[q] {
+						pool = append(pool, q)
+					}
+				}
 				dead := false
 				if !g.isEntry(r.Name) && !g.concurrent && !hasNext && chance(t, 8, "deadPre") {
 					pool = nil
@@ -672,7 +761,7 @@ func (g *pgen) refPool(r *si.Request) (live []varInfo, dead []varInfo) {
 		}
 	}
 	for _, q := range g.p.Requests {
-		if q.Name == r.Name {
+		if q.Name == r.Name || g.isolated[q.Name] || g.isolated[r.Name] {
 			continue
 		}
 		var vs []varInfo
@@ -749,7 +838,9 @@ func (g *pgen) templates() {
 			}
 			return &ref
 		}
-		r.Method = rapid.SampledFrom([]string{"GET", "GET", "POST", "PUT", "DELETE"}).Draw(t, "method")
+		if m := rapid.SampledFrom([]string{"GET", "GET", "POST", "PUT", "DELETE"}).Draw(t, "method"); r.Method == "" {
+			r.Method = m // (HEAD was decided together with the postprocessors)
+		}
 		// URI: /<name>[/seg...][?q=..]; only URL-safe values
 		uri := si.Tmpl{{Lit: "/" + r.Name}}
 		nseg := rapid.IntRange(0, 2).Draw(t, "uriSegs")
@@ -846,7 +937,7 @@ func (g *pgen) plantObjectChain() (capturer string) {
 	for _, r := range g.p.Requests {
 		for _, qn := range sortedKeys(g.before[r.Name]) {
 			q := g.p.Request(qn)
-			ok := !q.HasCaptureExpr(scengen.PostJsonpath, "$.obj.x")
+			ok := !q.HasCaptureExpr(scengen.PostJsonpath, "$.obj.x") && q.Method != "HEAD"
 			for _, p := range q.Posts {
 				if p.Kind == scengen.PostXpath {
 					ok = false
@@ -1140,11 +1231,14 @@ func genCase(t *rapid.T) Case {
 		kind string
 	}
 	var effective []fk
-	var bare []int // positions whose step has no postprocessors
+	var bare, bareBody []int // positions whose step has no postprocessors; those of them whose answer has a body
 	for n, name := range defs {
 		def := c.Prog.Request(name)
 		if len(def.Posts) == 0 {
 			bare = append(bare, n)
+			if def.Method != "HEAD" {
+				bareBody = append(bareBody, n)
+			}
 		}
 		for _, p := range def.Posts {
 			if p.Kind == scengen.PostAssert {
@@ -1157,7 +1251,7 @@ func genCase(t *rapid.T) Case {
 				if p.Status != 0 {
 					effective = append(effective, fk{n, si.FaultStatus})
 				}
-				if p.Size != nil {
+				if p.Size != nil && def.Method != "HEAD" {
 					effective = append(effective, fk{n, si.FaultBloat})
 				}
 			}
@@ -1189,9 +1283,11 @@ func genCase(t *rapid.T) Case {
 			f = FaultAt{N: ns[uni(t, 0, len(ns)-1, "plantedAt")], Kind: si.FaultObjString}
 		} else if len(bare) > 0 && chance(t, 30, "bareTransportFault") {
 			// a failure of the exchange itself on a step without postprocessors
-			f = FaultAt{N: bare[uni(t, 0, len(bare)-1, "bareAt")], Kind: si.FaultBodyCut}
-			if chance(t, 30, "bareClose") {
-				f.Kind = si.FaultClose
+			// (the answer to HEAD has no body to cut short)
+			if chance(t, 30, "bareClose") || len(bareBody) == 0 {
+				f = FaultAt{N: bare[uni(t, 0, len(bare)-1, "bareAt")], Kind: si.FaultClose}
+			} else {
+				f = FaultAt{N: bareBody[uni(t, 0, len(bareBody)-1, "bareAt")], Kind: si.FaultBodyCut}
 			}
 		} else if len(effective) > 0 && chance(t, 55, "effectiveFault") {
 			e := effective[uni(t, 0, len(effective)-1, "effectiveAt")]
@@ -1215,6 +1311,7 @@ func genCase(t *rapid.T) Case {
 	}
 	// a closed connection must not be retried silently by Go's transport: no connection reuse then
 	c.KeepAlive = !hasClose && rapid.Bool().Draw(t, "keepAlive")
+	c.AnswLog = chance(t, 25, "answlog")
 	return c
 }
 
@@ -1229,5 +1326,6 @@ func genConcurrentCase(t *rapid.T) Case {
 	c.KeepAlive = rapid.Bool().Draw(t, "keepAlive")
 	c.Salt = rapid.StringMatching(`[a-z]{2}`).Draw(t, "salt")
 	genChunking(t, &c)
+	c.AnswLog = chance(t, 25, "answlog")
 	return c
 }
